@@ -13,6 +13,7 @@ import Jap.Lemmas.EmitterRoundtrip
 import Jap.Lemmas.YamlDocRoundtrip
 import Jap.Lemmas.JsonDocRoundtrip
 import Jap.Lemmas.SkipDefault
+import Jap.Lemmas.TypedDoc
 
 namespace Jap.Props.C01
 open Jap.Scalar
@@ -130,7 +131,12 @@ theorem C01_str_scalar_roundtrip (col : Nat) (s t : List Char) (h : emitScalar c
     loadLine t = some (Tag.str, s, []) := by
   unfold emitScalar at h
   split at h
-  · cases h
+  · split at h
+    · rename_i hd
+      injection h with h; subst h
+      simp only [Bool.and_eq_true, decide_eq_true_eq] at hd
+      simpa using text_roundtrip_double false s [] hd.1 rfl
+    · cases h
   · rename_i hml
     split at h
     · injection h with h; subst h
@@ -169,6 +175,30 @@ theorem C01_emitKey_defined (s : List Char) (h1 : isMultiline s = false) (h2 : s
   have : s.isEmpty = false := by cases s <;> simp_all
   have h4 : ¬ (128 ≤ 5 + s.length) := by omega
   simp [emitKey, strTagHandleLen, h1, this, h4]
+
+/-- a string with line breaks that the emitter writes double-quoted (a blank next to a break: indented text; a TAB or
+another special character) is inside the model when its one-line escaped text fits into best_width -/
+theorem C01_emitScalar_defined_multiline (col : Nat) (s : List Char) (h1 : isMultiline s = true)
+    (h2 : styleOf false s = .double) (h3 : col + (textOf false s).length ≤ Gen.DumpCfg.yamlBestWidth) :
+    emitScalar col s = some (textOf false s) := by
+  simp [emitScalar, h1, h2, h3]
+
+/-- which style `choose_scalar_style` picks for a str VALUE with a line break: never plain; double-quoted exactly when
+the analysis forbids single quotes (blank before or after a break, special character) -/
+theorem C01_multiline_style (s : List Char) (h : isMultiline s = true) :
+    styleOf false s ≠ .plain ∧ (styleOf false s = .double ↔ allowSingle allowUnicodeCfg s = false) := by
+  have hp : allowBlockPlain allowUnicodeCfg s = false := by
+    cases s with
+    | nil => simp [isMultiline] at h
+    | cons c r => simp [allowBlockPlain, h]
+  constructor
+  · simp [styleOf, chooseStyle, hp]
+    split <;> simp
+  · cases hs : allowSingle allowUnicodeCfg s <;> simp [styleOf, chooseStyle, hp, hs]
+
+example : emitScalar 3 "def f():\n    return 1".toList = some "\"def f():\\n    return 1\"".toList ∧
+    emitScalar 3 "a \nb".toList = some "\"a \\nb\"".toList ∧ emitScalar 3 "a\tb\n".toList = some "\"a\\tb\\n\"".toList ∧
+    emitScalar 3 "a\nb".toList = none ∧ styleOf false "a\nb".toList = .single := by decide +kernel
 
 /-- the three styles occur; float-like strings are quoted (row 1 repaired), `: ` and ` #` force quotes, a TAB
 forces double quotes, the empty string is written `''` -/
@@ -400,6 +430,83 @@ example :
       (.cons (sk "d") (d2 (sk "a", si "9") (sk "c", si "2")) .nil))) ∧
     reparse s dflt (dumpedNode cfg dflt) = cfg := by decide +kernel
 end SkipDefaultExamples
+
+/-! ### the composition: typed value -> ser -> text -> loader -> constructors -> adapt
+
+The typed <-> plain layer is the adapter model of C02/C10 (`Jap.Adapt`: `adapt O false none t` deserialises, `ser O t`
+serialises; `good t`, `rt false t` delimit the sub-grammar of `C10_ser_adapt_roundtrip`: leaves, Literal, Enum, List,
+Tuple, Dict[str,_] at any depth, Enum-free Unions satisfying `unionCond`).  Its plain values are embedded into the
+document values by `toV C` (total on null / bool / int / float / str / list / dict, injective: `C01_embedding_injective`)
+and read back by `ofV C` (the constructors); `C : Codec` is the text of int / float scalars and its reading, required to
+round-trip only on the numbers that occur (`lawsOn`).  Full statement without hypotheses is false for the reasons
+recorded at each layer (Union serialisation family, multi-line / folded strings outside `emitDoc`, JSON classes). -/
+
+/-- YAML: for every type of the sub-grammar and every value `w` the adapter returns (a conforming typed value), the text
+`yaml_dump` writes for `ser t w` is loaded, constructed and adapted back to `w` -/
+theorem C01_typed_roundtrip_partial (O : Jap.Adapt.Oracle) (C : Codec) (t : Jap.Adapt.Ty) (v w z : Jap.Adapt.Val) (u : V)
+    (text : List Char) (hg : Jap.Adapt.good t = true) (hr : Jap.Adapt.rt false t = true)
+    (h : Jap.Adapt.adapt O false .none t v = .ok w) (hz : Jap.Adapt.ser O t w = .ok z)
+    (hu : toV C z = some u) (hl : lawsOn C z = true) (hok : VOK u = true) (he : emitDoc u = some text) :
+    ((loadDoc text).bind (ofV C)).map (Jap.Adapt.adapt O false .none t) = some (.ok w) :=
+  typed_roundtrip_yaml O C t v w z u text hg hr h hz hu hl hok he
+
+/-- the same through `json_compact_dump` / `json_indented_dump` and the YAML loader -/
+theorem C01_typed_roundtrip_json_partial (O : Jap.Adapt.Oracle) (C : Codec) (t : Jap.Adapt.Ty) (v w z : Jap.Adapt.Val) (u : V)
+    (hg : Jap.Adapt.good t = true) (hr : Jap.Adapt.rt false t = true)
+    (h : Jap.Adapt.adapt O false .none t v = .ok w) (hz : Jap.Adapt.ser O t w = .ok z)
+    (hu : toV C z = some u) (hl : lawsOn C z = true) (hv : ∀ s, u ≠ .sc s) (hok : JOK u = true) :
+    ((jsonLoad (jsonDump u)).bind (ofV C)).map (Jap.Adapt.adapt O false .none t) = some (.ok w) ∧
+    ((jsonLoad (jsonIndentedDump u)).bind (ofV C)).map (Jap.Adapt.adapt O false .none t) = some (.ok w) :=
+  typed_roundtrip_json O C t v w z u hg hr h hz hu hl hv hok
+
+/-- the embedding commutes with reading back, hence is injective -/
+theorem C01_embedding_commutes (C : Codec) (z : Jap.Adapt.Val) (u : V) (h : toV C z = some u) (hl : lawsOn C z = true) :
+    ofV C u = some z :=
+  ofV_toV C z u h hl
+
+theorem C01_embedding_injective (C : Codec) (z z' : Jap.Adapt.Val) (u : V) (h : toV C z = some u) (h' : toV C z' = some u)
+    (hl : lawsOn C z = true) (hl' : lawsOn C z' = true) : z = z' :=
+  toV_injective C z z' u h h' hl hl'
+
+section TypedExamples
+open Jap.Adapt in
+private def exO : Oracle where
+  yaml s := some (.str s)
+  loadAny s := some (.str s)
+  bigFlt _ := .none
+  intOf _ := .none
+
+private def readNat (t : List Char) : Option Nat :=
+  if t.isEmpty || !(t.all Char.isDigit) then none else some (t.foldl (fun acc c => acc * 10 + (c.toNat - 48)) 0)
+
+/-- decimal text of an int and `int(text)`; floats as their repr -/
+private def exC : Codec where
+  intText i := match i with
+    | .ofNat n => Nat.toDigits 10 n
+    | .negSucc n => '-' :: Nat.toDigits 10 (n + 1)
+  fltText r := r.toList
+  readInt t := match t with
+    | '-' :: r => (readNat r).map fun n => -(n : Int)
+    | _ => (readNat t).map fun n => (n : Int)
+  readFlt t := some (String.ofList t)
+
+open Jap.Adapt in
+/-- `Dict[str, List[Optional[int]]]`, value `{'a': [1, None, -12], 'b': [], '1e3': [None]}` -/
+private def exTy : Ty := .dict .str (.list (.union [.none, .int]))
+open Jap.Adapt in
+private def exVal : Val :=
+  .dict [(.str "a", .list [.int 1, .null, .int (-12)]), (.str "b", .list []), (.str "1e3", .list [.null])]
+
+/-- non-vacuity: every hypothesis of both theorems holds for a nested dict-of-list-of-Optional value, and this is the text -/
+example : Jap.Adapt.good exTy = true ∧ Jap.Adapt.rt false exTy = true ∧
+    Jap.Adapt.adapt exO false .none exTy exVal = .ok exVal ∧ Jap.Adapt.ser exO exTy exVal = .ok exVal ∧
+    lawsOn exC exVal = true ∧
+    (∃ u, toV exC exVal = some u ∧ VOK u = true ∧ JOK u = true ∧ (∀ s, u ≠ .sc s) ∧
+      emitDoc u = some "a:\n- 1\n- null\n- -12\nb: []\n'1e3':\n- null\n".toList ∧
+      jsonDump u = "{\"a\":[1,null,-12],\"b\":[],\"1e3\":[null]}".toList) := by
+  refine ⟨rfl, rfl, rfl, rfl, by decide +kernel, _, rfl, by decide +kernel, by decide +kernel, ?_, by decide +kernel, by decide +kernel⟩
+  intro s h; cases h
+end TypedExamples
 
 /-! ### the constants the document models hard-code are the extracted ones -/
 
